@@ -148,7 +148,7 @@ def run_case(case):
     pi, m, n, order, a, kind, sk, arr, cval = case
     r = RECS[pi]
     c = r['c'][0] / r['c'][1]
-    f00 = exprs.make_fun(r['prog'], c, a, powop=(pi + n + order) % 2 == 1, p=r.get('p', 0.0))   # integer powers: operator or product
+    f00 = exprs.make_fun(r['prog'], c, a, powop=[False, 'int', False, 'float', False, 'npint'][(pi + n + order) % 6], p=r.get('p', 0.0))   # integer powers: operator or product
     CF = (0.6 + 0.8j) if cval else 1.0          # complex-valued f = (0.6+0.8i) * g, |factor| = 1
     f0 = (lambda z: f00(z) * CF) if cval else f00
     jf = np.array(exprs.jet_floats(r['jet']))
